@@ -16,6 +16,12 @@
  *   clean_output                : every request is unregistered once, cleaned and freed once; the list is empty.
  */
 #include "vpipeflow_pre.h"
+#include <stdlib.h>
+/* proxies are released through (urequest_free_func)free: libc free is counted instead of executed, so that the function
+ * pointer has a body the verifier can dispatch to (a proxy freed twice or never shows in g_proxy_freed) */
+static int g_proxy_freed; static void *g_the_proxy;
+static void stub_free_fn(void *p) { if (p == g_the_proxy) g_proxy_freed++; }
+#define free stub_free_fn
 #include "lib/upipe-modules/upipe_idem.c"
 #include "vspec.h"
 #include "vstub_pipe.h"
@@ -154,6 +160,54 @@ void h_req_set_output(void)
         int on = 0; struct uchain *c = s->request_list.next;
         for (int k = 0; k < MAXR + 1; k++) { if (c == &s->request_list) break; if (c == &RQ(gk)->uchain) on++; c = c->next; }
         VPOST(on == 1 && c == &s->request_list);
+    }
+    VCANARY();
+}
+/* ---- proxies: an upstream request U registered on this pipe is forwarded as a proxy; answers come back to U ---------- */
+static struct urequest g_up; static int g_up_provided; static uint64_t g_up_arg; static int g_up_freed;
+static int stub_up_provide(struct urequest *r, va_list args) { if (r == &g_up) { g_up_provided++; g_up_arg = va_arg(args, uint64_t); } return UBASE_ERR_NONE; }
+static void stub_up_free(struct urequest *r) { g_up_freed++; }
+static struct urequest *spec_proxy_on_list(struct upipe *upipe, int *count)
+{
+    struct uchain *h = &upipe_idem_from_upipe(upipe)->request_list, *c = h->next; struct urequest *found = NULL; *count = 0;
+    for (int k = 0; k < MAXR + 2; k++) {
+        if (c == h) break;
+        struct urequest *r = container_of(c, struct urequest, uchain);
+        if (r->opaque == &g_up && IDX(r) < 0) { found = r; (*count)++; }
+        c = c->next;
+    }
+    return found;
+}
+void h_proxy(void)
+{
+    BUILD();
+    VIN(uint8_t, with_uref); VIN(uint64_t, answer);
+    struct uref *ur = (with_uref & 1) ? vs_make_uref(true, 3, 0) : NULL;
+    VASSUME(!(with_uref & 1) || ur != NULL);
+    urequest_init(&g_up, UREQUEST_SINK_LATENCY, ur, stub_up_provide, stub_up_free);
+    g_up_provided = 0; g_up_freed = 0; g_up_arg = 0; g_proxy_freed = 0;
+    int live0 = gs_uref_live, n;
+    /* register: through the helper's control entry, as an upstream pipe's upipe_register_request does */
+    int r1 = upipe_idem_alloc_output_proxy(upipe, &g_up);
+    struct urequest *p = spec_proxy_on_list(upipe, &n);
+    g_the_proxy = p;
+    if (r1 == UBASE_ERR_ALLOC && p == NULL) {            /* could not be created: nothing left behind */
+        VPOST(n == 0 && gs_uref_live == live0 && g_unknown_req == 0);
+    } else {
+        VPOST(n == 1 && p != NULL && p->type == UREQUEST_SINK_LATENCY && p->registered == (WITH_A != 0));
+        VPOST(((with_uref & 1) != 0) == (p->uref != NULL) && (p->uref == NULL || (p->uref != ur && vs_def_id(p->uref) == 3)));      /* its own copy of the argument */
+        VPOST(g_unknown_req == (WITH_A ? 1 : 0));                        /* the output heard one REGISTER, for the proxy (not one of the listed requests) */
+        /* the answer given to the proxy reaches the original requester, once, with the same value */
+        int ra = urequest_provide_sink_latency(p, answer);
+        VPOST(ra == UBASE_ERR_NONE && g_up_provided == 1 && g_up_arg == answer);
+        /* unregister: the proxy is withdrawn and freed, the upstream request itself is left to its owner */
+        int r2 = upipe_idem_free_output_proxy(upipe, &g_up);
+        spec_proxy_on_list(upipe, &n);
+        VPOST(g_proxy_freed == 1);                                         /* the proxy structure is released exactly once */
+        VPOST(r2 == UBASE_ERR_NONE && n == 0 && g_up_freed == 0 && gs_uref_live == live0 && g_unknown_req == (WITH_A ? 2 : 0));
+        VPOST(spec_list_is(upipe, NREQ, false, -1));
+        /* a second unregister finds nothing */
+        VPOST(upipe_idem_free_output_proxy(upipe, &g_up) == UBASE_ERR_INVALID);
     }
     VCANARY();
 }
